@@ -462,10 +462,10 @@ def part_knots(rep, rng, drv, tier, A, E, cases=None):
                     rs = np.asarray(rs, dtype=float)
                     ethr = Fr(float(e_i)) - Fr(G.DEFAULT_ATOL) - G.SLACK
                     if ethr > 0 and np.all(np.diff(rs) > 0):
-                        pv = np.asarray(p(rs[:-1]), dtype=float)
                         flo, fhi = G.enclose(f, rs)
-                        reqs.append(("approx.alt", "%d %s %s %s %s %s %s %s -" % (
-                            n, C.fhex(knots[i]), C.fhex(knots[i + 1]), C.flist(rs), C.flist(pv), G.frlist(flo),
+                        ym = [(lo + hi) / 2 for lo, hi in zip(flo, fhi)]
+                        reqs.append(("approx.altlev", "%d %s %s %s %s %s %s %s -" % (
+                            n, C.fhex(knots[i]), C.fhex(knots[i + 1]), C.flist(rs), G.frlist(ym), G.frlist(flo),
                             G.frlist(fhi), C.fhex(e_i))))
                         meta.append(("piece", inp, i))
                     else:
